@@ -304,6 +304,9 @@ func (w *World) ContractedFuncs() []string {
 				if c.Flags["helper"] && !c.Flags["verify"] && len(c.Ensures) == 0 {
 					continue
 				}
+				if c.Flags["assumed"] {
+					continue
+				}
 				out = append(out, c.Key)
 			}
 		}
